@@ -65,6 +65,9 @@ type foundOp struct {
 	pos   token.Pos
 }
 
+// relInfo, when set, lets relOps look at operand types.
+var relInfo *types.Info
+
 // relOps collects operators applied between a pure-left and a pure-right operand.
 func relOps(e ast.Expr, negated bool, out *[]foundOp) {
 	switch x := e.(type) {
@@ -85,6 +88,42 @@ func relOps(e ast.Expr, negated bool, out *[]foundOp) {
 			// !(a == b) is a != b, !(a < b) is a >= b, ...
 			if n, ok := map[token.Token]token.Token{token.EQL: token.NEQ, token.NEQ: token.EQL, token.LSS: token.GEQ, token.GEQ: token.LSS, token.GTR: token.LEQ, token.LEQ: token.GTR}[x.Op]; ok {
 				opStr = n.String()
+			}
+		}
+		if relInfo != nil && (pureL(a) && pureR(b) || pureR(a) && pureL(b)) {
+			isFloat := func(e ast.Expr) bool {
+				t := relInfo.TypeOf(e)
+				if t == nil {
+					return false
+				}
+				bt, ok := t.Underlying().(*types.Basic)
+				return ok && bt.Info()&types.IsFloat != 0
+			}
+			if negated && opStr != x.Op.String() && (x.Op == token.LSS || x.Op == token.GTR || x.Op == token.LEQ || x.Op == token.GEQ) && (isFloat(x.X) || isFloat(x.Y)) {
+				// on floats !(a < b) is not a >= b: it is also true when either is NaN
+				opStr = "!(" + x.Op.String() + ") on floats"
+			}
+			// both operands are time.Time projected onto an integer
+			proj := func(e ast.Expr) string {
+				call, ok := ast.Unparen(e).(*ast.CallExpr)
+				if !ok {
+					return ""
+				}
+				sel, ok := call.Fun.(*ast.SelectorExpr)
+				if !ok {
+					return ""
+				}
+				if t := relInfo.TypeOf(sel.X); t == nil || t.String() != "time.Time" {
+					return ""
+				}
+				switch sel.Sel.Name {
+				case "UnixNano", "Unix", "UnixMilli", "UnixMicro":
+					return sel.Sel.Name
+				}
+				return ""
+			}
+			if pa, pb := proj(x.X), proj(x.Y); pa != "" && pb != "" {
+				opStr = opStr + " of " + pa + "()"
 			}
 		}
 		if pureL(a) && pureR(b) {
@@ -192,6 +231,7 @@ func rulesC09(c *Ctx) {
 							return true
 						}
 						var ops []foundOp
+						relInfo = p.Info
 						relOps(ret.Results[0], false, &ops)
 						if len(ops) == 0 {
 							return true // constant result or delegation
